@@ -395,6 +395,12 @@ class RTable:
     def __getitem__(self, name):
         if isinstance(name, RName):
             name = name.name
+        if isinstance(name, RCol):
+            # derived[t.x]: the same column under its current name
+            for nme, cid in self._visible:
+                if cid == name.colid:
+                    return RCol(cid, nme, self)
+            raise RefError(f"column {name.name} is not visible in the table")
         for nme, cid in self._visible:
             if nme == name:
                 return RCol(cid, nme, self)
@@ -1197,3 +1203,12 @@ class RefAPI:
     String = _Ty(STR)
     Bool = _Ty(BOOL)
     is_ref = True
+
+    @staticmethod
+    def touch(tbl):
+        """real side: export / build_query / repr the table (must not change anything)"""
+        return tbl
+
+    @staticmethod
+    def colname(col):
+        return col.name
